@@ -66,6 +66,13 @@ var c17Hand = []string{
 	"MUSTFAIL{% extends 'base' %}{% set q %}{{ 1 % 0 }}{% endset %}{% block bb %}x{% endblock %}",
 	"MUSTFAIL{% extends 'base' %}{% use 'lay' with nosuch as b %}{% block bb %}x{% endblock %}",
 	"MUSTFAIL{% extends 'nobase' %}{% block bb %}x{% endblock %}",
+	// a block that is not there cannot be imported, whatever it is to be called - also under its own name
+	"MUSTFAIL{% use 'lay' with nosuch as nosuch %}x", "MUSTFAIL{% use 'lay' with eb as eb, nosuch as nosuch %}x{{ block('eb') }}", "MUSTFAIL{% extends 'base' %}{% use 'lay' with nosuch as nosuch %}{% block bb %}x{% endblock %}", "MUSTFAIL{% use 'lay' with nosuch as eb %}x",
+	// what fails inside a template that is there is a failure, however leniently the template was asked for (forms
+	// of other Twig dialects included: if they are not understood that is an error as well)
+	"MUSTFAIL{% include 'broken-inside' %}", "MUSTFAIL{% include 'broken-inside' ignore missing %}", "MUSTFAIL{% include 'broken-inside' ignore missing with {'a': 1} only %}", "MUSTFAIL{% embed 'broken-inside' ignore missing %}{% endembed %}",
+	"MUSTFAIL{% include ['nolib', 'broken-inside'] %}", "MUSTFAIL{% include ['nolib', 'nolib2'] %}", "MUSTFAIL{% include 'nolib' ignore missing %}{{ nofunc() }}", "MUSTFAIL{{ include('broken-inside') }}", "MUSTFAIL{{ include('nolib', ignore_missing = true) }}{{ nofunc() }}",
+	"MUSTFAIL{% include 'broken-extends' ignore missing %}", "MUSTFAIL{% include 'broken-import' ignore missing %}",
 	"MUSTFAIL{% from 'lib' import nosuch %}never called",
 	"MUSTFAIL{% import 'nolib' as L %}never used",
 	"MUSTFAIL{% for i in 1..3 %}{{ i }}{% include 'nolib' %}{% endfor %}",
@@ -81,12 +88,16 @@ func (p *c17) N() int { return len(c17Hand) + 2 + p.nProg }
 
 func c17Aux() map[string]string {
 	return map[string]string{
-		"lib":    "{% macro lm(a) %}lm:{{ a }}{% endmacro %}",
-		"part":   "part({{ w }}{{ s }})",
-		"lay":    "lay[{% block eb %}orig{% endblock %}{{ s }}]",
-		"base":   "base<{% block bb %}bb0{{ s }}{% endblock %}|{% block cc %}cc0{% endblock %}>",
-		"child":  "{% extends 'base' %}{% block bb %}child{{ parent() }}{{ n }}{% endblock %}",
-		"gchild": "{% extends 'child' %}{% block cc %}g{{ parent() }}{% filter up %}x{% endfilter %}{% endblock %}",
+		"lib": "{% macro lm(a) %}lm:{{ a }}{% endmacro %}",
+		// templates that exist and fail half-way because something they need does not
+		"broken-inside":  "A{% include 'nolib' %}B",
+		"broken-extends": "{% extends 'nobase' %}{% block bb %}x{% endblock %}",
+		"broken-import":  "P{% import 'nolib' as L %}{{ L.lm(1) }}Q",
+		"part":           "part({{ w }}{{ s }})",
+		"lay":            "lay[{% block eb %}orig{% endblock %}{{ s }}]",
+		"base":           "base<{% block bb %}bb0{{ s }}{% endblock %}|{% block cc %}cc0{% endblock %}>",
+		"child":          "{% extends 'base' %}{% block bb %}child{{ parent() }}{{ n }}{% endblock %}",
+		"gchild":         "{% extends 'child' %}{% block cc %}g{{ parent() }}{% filter up %}x{% endfilter %}{% endblock %}",
 	}
 }
 
